@@ -352,8 +352,8 @@ def facts(snap, F):
     F.try_add("energyFullAlts", "List String", lambda: strs(multi_alts(pl, "energy_full")), "multi_bcat alternatives")
     F.try_add("timeToEmptyAlts", "List String", lambda: strs(multi_alts(pl, "time_to_empty")), "multi_bcat alternatives")
     F.try_add("onlineAlts", "List String", lambda: strs(multi_alts(pl, "online")), "multi_bcat alternatives")
-    F.try_add("batPrefix", "String", lambda: S(bat_filter(pl)[0]), "x.startswith(<this>)")
-    F.try_add("batInfix", "String", lambda: S(bat_filter(pl)[1]), "<this> in x.lower()")
+    F.try_add("batPrefix", "List Nat", lambda: extract.lean_bytes(bat_filter(pl)[0].encode()), "x.startswith(<this>) — bytes")
+    F.try_add("batInfix", "List Nat", lambda: extract.lean_bytes(bat_filter(pl)[1].encode()), "<this> in x.lower() — bytes")
     F.try_add("statKeys", "List String", lambda: strs(stat_keys(pl)),
               "the `line.startswith` keys of cpu_stats in test order (value = second token)")
     F.try_add("btimeKey", "String", lambda: S(btime_key(pl)), "the key of boot_time (value = second token)")
